@@ -64,6 +64,7 @@ type history struct {
 	shadow  map[string]*Obj // last content both roots agreed on, per path
 	rounds  []roundRecord
 	seeding string
+	stuck   bool
 	tpSig   string   // "listed" if the quiescent flushes reported transition problems
 	tpList  []string
 }
@@ -289,7 +290,13 @@ func (h *history) run() error {
 		return err
 	}
 	h.sess = sess
-	defer sess.close()
+	defer func() {
+		// a session that exceeded a wait bound is stuck somewhere inside a cycle;
+		// terminating it would wait for that cycle too
+		if !h.stuck {
+			sess.close()
+		}
+	}()
 
 	ed := &editor{rng: rng, roots: h.roots, log: h.logf}
 	nRounds := 3 + rng.Intn(10)
@@ -303,6 +310,7 @@ func (h *history) run() error {
 				h.logf("round %d: pause/resume", round)
 				if err := sess.restart(); err != nil {
 					if err == errWait {
+						h.stuck = true
 						h.res.Inconclusive = append(h.res.Inconclusive, "l3-restart-wait")
 						return nil
 					}
@@ -341,9 +349,12 @@ func (h *history) run() error {
 		st, flushErr, waitErr := sess.flush()
 		if waitErr != nil {
 			if waitErr == errWait {
+				h.stuck = true
+				h.logf("round %d: flush did not come back within %v: inconclusive", round, flushBound)
 				h.res.Inconclusive = append(h.res.Inconclusive, "l3-flush-wait")
 				return nil
 			}
+			h.stuck = true
 			return fmt.Errorf("waiting after flush: %w", waitErr)
 		}
 		v.state, v.flushErr = st, flushErr
@@ -459,6 +470,7 @@ func (h *history) quiescent() error {
 	mode := h.spec.Mode
 	st1, ferr1, werr := h.sess.flush()
 	if werr != nil {
+		h.stuck = true
 		h.res.Inconclusive = append(h.res.Inconclusive, "l3-flush-wait")
 		return nil
 	}
@@ -477,6 +489,7 @@ func (h *history) quiescent() error {
 	archObj1, _ := takeSnap(h.sess.archivePath)
 	st2, ferr2, werr := h.sess.flush()
 	if werr != nil {
+		h.stuck = true
 		h.res.Inconclusive = append(h.res.Inconclusive, "l3-flush-wait")
 		return nil
 	}
